@@ -360,7 +360,15 @@ impl ClientModel {
         let what = if play { "stop_playback" } else { "stop_publishing" };
         let active_state = if play { matches!(self.st, CSt::PlayRequested | CSt::Playing) } else { matches!(self.st, CSt::PublishRequested | CSt::Publishing) };
         if !ok {
-            return Err(("stop-failed", format!("{} returned Err", what)));
+            // with nothing to stop, an Err is a refusal like any other ("otherwise refuses without
+            // emitting bytes or changing state"); with an activity to stop it is a failure
+            if active_state && self.active.is_some() {
+                return Err(("stop-failed", format!("{} returned Err", what)));
+            }
+            if !outs.is_empty() {
+                return Err(("refused-call-had-effects", format!("{} was refused but emitted {:?}", what, outs)));
+            }
+            return Ok(self.clone());
         }
         if active_state {
             let a = match self.active {
